@@ -14,6 +14,7 @@
 (*            yields for that thread's cache history on the dumped tables; a cache address       *)
 (*            belongs to exactly one thread.                                                     *)
 (*   Validate a worker thread never finds a shared image dirty (it would write it).              *)
+(*   RefShared a worker thread never changes the reference count of a shared image.              *)
 (*   Res      every execution of request req -- under any configuration, from any thread -- leaves *)
 (*            the same bytes (ref persists across Reset); pixman_fill / pixman_blt: the same      *)
 (*            bytes as every other successful execution, or FALSE and the buffer untouched.      *)
@@ -72,6 +73,11 @@ TValidate == /\ Is("Validate")
              /\ (Ev.tid # 0 /\ Ev.img \in shared) => ~Ev.dirty
              /\ UNCHANGED <<tables, anyOp, anyFmt, caches, owner, shared, livethr, ref>> /\ Adv
 
+(* a change of the reference count of a shared image (hook H4, reported for shared images only) is a write to  *)
+(* that image: only the main thread may do it                                                                  *)
+TRefShared == /\ Is("RefShared") /\ Ev.tid = 0
+              /\ UNCHANGED <<tables, anyOp, anyFmt, caches, owner, shared, livethr, ref>> /\ Adv
+
 TDispatch == /\ Is("Dispatch")
              /\ UNCHANGED <<tables, anyOp, anyFmt, caches, owner, shared, livethr, ref>> /\ Adv
 
@@ -91,6 +97,6 @@ TRes ==
 
 TInit == /\ l = 1 /\ tables = <<>> /\ anyOp = 0 /\ anyFmt = <<>> /\ caches = <<>> /\ owner = <<>>
          /\ shared = {} /\ livethr = {} /\ ref = <<>>
-TNext == TReset \/ TTables \/ TSpawn \/ TJoin \/ TShared \/ TLookup \/ TValidate \/ TDispatch \/ TRes
+TNext == TReset \/ TTables \/ TSpawn \/ TJoin \/ TShared \/ TLookup \/ TValidate \/ TRefShared \/ TDispatch \/ TRes
 TSpec == TInit /\ [][TNext]_tvars
 =============================================================================
